@@ -178,3 +178,15 @@ def peerAddresses (s : State α) : List α := keys s.peers
 
 end
 end IQE.Engine.Membership
+
+namespace IQE.Engine.Membership
+
+/-- The concrete environment of the correspondence runs: addresses are strings ordered by `String.<`
+    (lexicographic by code point = Rust's byte-wise order on UTF-8), `isSelf` is the table of
+    `is_self_address(a, self_address)` answers measured on the real code at the start of a case. -/
+def strEnv (selfAddr : String) (selfId : Nat) (table : List (String × Bool)) : Env String :=
+  { lt := fun a b => decide (a < b),
+    isSelf := fun a => match table.lookup a with | some b => b | none => a == selfAddr,
+    selfAddr := selfAddr, selfId := selfId }
+
+end IQE.Engine.Membership
